@@ -15,11 +15,17 @@
                                obs  = (0 res-id) | (1 res-()) | (2 ((id tag) ...) res-())
                                spec = () unless the event is a route and the history so far is passive:
                                       (((id tag) ...))  from Spec.MatchSpec.expected
-   (12 1 rule)             -> (text parse)       text = rule_string rule; parse = res-rule of parse_rule text
+   (12 1 rule)             -> (text parse accepted)   text = rule_string rule; parse = res-rule of parse_rule text;
+                                                      accepted = the reference daemon takes the text (DaemonSpec)
+   (12 5 (event ...))      -> client history against the reference daemon (callbacks must be passive), one
+                               (obs spec) per event:
+                               obs  = (0 (wire ...) res-id) | (1 (wire ...) res-()) | (2 forwarded ((id tag) ...))
+                               wire = (0 text) AddMatch | (1 text) RemoveMatch
+                               spec = () | (((id tag) ...))  for a signal: MatchSpec.expected of the history so far
    (12 2 text)             -> res-rule           parse_rule text
    (12 3 declared msg)     -> (model spec)       each () = not called | ((arg ...)) = called with these arguments
    (12 4 rule msg)         -> (model legacy spec registrable)   booleans                                   *)
-From Tx Require Import Lib.Base Lib.Sexp Model.Router Spec.MatchSpec.
+From Tx Require Import Lib.Base Lib.Sexp Model.Router Spec.MatchSpec Spec.DaemonSpec Model.ClientMatch.
 Local Open Scope Z_scope.
 
 Definition dec_ostr : sexp -> option (option str) := as_opt as_str.
@@ -160,6 +166,30 @@ Fixpoint go (done : list event) (pass : bool) (st stl : router) (h : list event)
       SList [enc_obs o; enc_obs ol; sp] :: go (done ++ [e]) pass' st' stl' h'
   end.
 
+(* ---- client histories against the reference daemon ----------------------------- *)
+
+Definition cevent_of (e : event) : cevent :=
+  match e with EAdd r k => CAdd r k | EDel i => CDel i | ERoute m => CSignal m end.
+
+Definition enc_wire (w : wire) : sexp :=
+  match w with WAdd t => SList [SNum 0; sstr t] | WRemove t => SList [SNum 1; sstr t] end.
+
+Definition enc_cobs (o : cobs) : sexp :=
+  match o with
+  | OCAdded w r => SList [SNum 0; SList (map enc_wire w); sres snat r]
+  | OCDeleted w r => SList [SNum 1; SList (map enc_wire w); sres enc_unit r]
+  | OCSignal f l => SList [SNum 2; sbool f; enc_called l]
+  end.
+
+Fixpoint cgo (done : list event) (s : client * daemon) (h : list event) : list sexp :=
+  match h with
+  | [] => []
+  | e :: h' =>
+      let '(s', o) := cstep s (cevent_of e) in
+      let sp := match e with ERoute m => SList [enc_called (expected done m)] | _ => SList [] end in
+      SList [enc_cobs o; sp] :: cgo (done ++ [e]) s' h'
+  end.
+
 Definition op (args : list sexp) : sexp :=
   match args with
   | [SNum 0; SList es] =>
@@ -167,9 +197,16 @@ Definition op (args : list sexp) : sexp :=
       | Some h => SList (go [] true init init h)
       | None => bad
       end
+  | [SNum 5; SList es] =>
+      match map_opt dec_event es with
+      | Some h => if forallb is_passive_event h then SList (cgo [] (cinit, []) h) else bad
+      | None => bad
+      end
   | [SNum 1; r] =>
       match dec_rule r with
-      | Some r' => let t := rule_string r' in SList [sstr t; sres enc_rule (parse_rule t)]
+      | Some r' => let t := rule_string r' in
+                   SList [sstr t; sres enc_rule (parse_rule t);
+                          sbool (match rule_of_text t with Some _ => true | None => false end)]
       | None => bad
       end
   | [SNum 2; t] =>
